@@ -187,7 +187,17 @@ pub fn resolve_constant(
     }
 
 
-    if symbol.value != prev_value
+    // Integers compare by number only, but what reads the
+    // constant also sees its size: a new size is a new value
+    let size_changed = match (&symbol.value, &prev_value)
+    {
+        (expr::Value::Integer(new), expr::Value::Integer(prev)) =>
+            new.size != prev.size,
+        _ => false,
+    };
+
+    if symbol.value != prev_value ||
+        size_changed
     {
         // On the final iteration, unstable guesses become errors
         if ctx.is_last_iteration
